@@ -35,6 +35,28 @@ func NewWorld(inst uint64) *World {
 	return &World{Inst: inst, secrets: map[string][]byte{}, SigTable: map[string]SigInfo{}}
 }
 
+// SeedFor returns the random seed every correct term of the given height uses: the chain starts
+// from the empty genesis proof and continues through the aggregated random-seed signatures.
+func (w *World) SeedFor(h uint64) uint64 {
+	seed := calcSeed(nil)
+	for x := uint64(1); x < h; x++ {
+		seed = calcSeed(w.AggSig(x, seed))
+	}
+	return seed
+}
+
+// AggSig is the aggregated random-seed signature of height h given that height's seed.
+func (w *World) AggSig(h uint64, seed uint64) []byte {
+	ch := sha256.Sum256([]byte(fmt.Sprintf("%d", seed)))
+	return w.mac("agg", []byte("master"), h, ch[:8])
+}
+
+func calcSeed(sig []byte) uint64 {
+	hash := sha256.Sum256(sig)
+	array := []byte{hash[0], hash[3], hash[7], hash[11], hash[15], hash[19], hash[23], hash[27]}
+	return binary.LittleEndian.Uint64(array)
+}
+
 func (w *World) secret(id []byte) []byte {
 	w.mu.Lock()
 	defer w.mu.Unlock()
